@@ -199,7 +199,7 @@ def confirm_replay(res, v):
     outs = []
     for _ in range(2):
         r = subprocess.run([exe, "--tier", res.get("tier", "quick"), "--replay", rp], env=ENV, stdout=subprocess.DEVNULL, stderr=subprocess.PIPE, text=True, timeout=900)
-        fails = sorted(set(re.findall(r"VX-FAIL (\S+):", r.stderr)))
+        fails = sorted(set(re.findall(r"(?m)^VX-FAIL (.*?) :: ", r.stderr)))
         crashed = r.returncode not in (0, 1) or "AddressSanitizer" in r.stderr or "runtime error:" in r.stderr
         outs.append((r.returncode != 0, fails, crashed))
     if v["key"].startswith("crash|"):
